@@ -138,11 +138,14 @@ def runOps (ops : Array Json) (fnMax objMax : Nat) : Except String (Array Json) 
         let fl ← op.getObjVal? "flags"
         let fb := fun (k : String) => (Driver.getBool fl k).toOption.getD false
         let rq : Request := ⟨p.dumps, fb "return_exception", fb "compress", fb "return_immediately", fb "return_none"⟩
-        let r := MlModel.Remote.handle rq s
-        s := r.2
-        match r.1 with
-        | .payload w gz => ob := Json.mkObj [("payload", pvalJson w.loads), ("gz", gz)]
-        | .raised x => ob := Json.mkObj [("raised", excJson x)]
+        match p.traceError with
+        | some x => ob := Json.mkObj [("raised", excJson x)]
+        | none =>
+          let r := MlModel.Remote.handle rq s
+          s := r.2
+          match r.1 with
+          | .payload w gz => ob := Json.mkObj [("payload", pvalJson w.loads), ("gz", gz)]
+          | .raised x => ob := Json.mkObj [("raised", excJson x)]
     | "bg" =>
       s := drainBg s
       ob := Json.mkObj [("bg", true)]
@@ -153,12 +156,15 @@ def runOps (ops : Array Json) (fnMax objMax : Nat) : Except String (Array Json) 
       match ← parseProg results (← op.getObjVal? "prog") with
       | none => pure ()
       | some p =>
-        let r := initIterator p.dumps s
-        s := r.2
-        match r.1 with
-        | .refused x => ob := Json.mkObj [("refused", excJson x)]
-        | .accepted => ob := Json.mkObj [("accepted", true)]
-        | .raised x => ob := Json.mkObj [("raised", excJson x)]
+        match p.traceError with
+        | some x => ob := Json.mkObj [("raised", excJson x)]
+        | none =>
+          let r := initIterator p.dumps s
+          s := r.2
+          match r.1 with
+          | .refused x => ob := Json.mkObj [("refused", excJson x)]
+          | .accepted => ob := Json.mkObj [("accepted", true)]
+          | .raised x => ob := Json.mkObj [("raised", excJson x)]
     | _ => throw s!"bad op {kind}"
     results := results.push resv
     out := out.push (ob.setObjVal! "calls" (toJson (s.lz.w.log.drop log0)))
